@@ -140,7 +140,16 @@ class ModuleSet:
         b.update(self.builtin_overrides)
         ns.update({'__name__': modname, '__file__': path, '__builtins__': b})
         code = src
-        if self.fmt and modname in ('mofun.atoms', 'mofun.rough_uff', 'mofun.cli.mofun_cli'):
+        if not self.fmt and self.mode == 'sym':
+            # outside the text-I/O harnesses a "%8.5f" % x with a symbolic x only ever builds a message (error text, verbose output):
+            # the same single rewrite, with a formatter that renders symbolic arguments as text instead of calling float() on them
+            from . import fmtmodel as _fm
+            rw = _fm.Rewriter()
+            tree = rw.visit(ast.parse(src))
+            ast.fix_missing_locations(tree)
+            code = tree
+            ns['__symfmt__'] = _fm.message_fmt
+        if self.fmt:
             rw = self.fmtmodel.Rewriter()
             tree = rw.visit(ast.parse(src))
             ast.fix_missing_locations(tree)
